@@ -896,6 +896,72 @@ def collectGenerics : List (Nat × Node) → List (Nat × Bool × List Nat) → 
 def emittedGenerics (gs : List (Nat × Bool × List Nat)) : List (Nat × List Nat) :=
   (gs.filter (fun g => g.2.1 || g.2.2.length > 1)).map (fun g => (g.1, g.2.2))
 
+/-! ### implied arguments: `ToImplied` (wrapf.py) -/
+
+/-- expressions of the `+implied(..)` attribute: `true`, `false`, another argument, a constant,
+    `size(arg)`, `len(arg)`, `len_trim(arg)`, `type(arg)`, arithmetic (1 `+`, 2 `-`, 3 `*`, 4 `/`) -/
+inductive IExpr where
+  | tru | fls
+  | ident (n : Nat)
+  | const (v : Nat)
+  | size (a : Nat) | len (a : Nat) | lenTrim (a : Nat) | typ (a : Nat)
+  | bin (op : Nat) (l r : IExpr)
+  | neg (e : IExpr)
+  | paren (e : IExpr)
+  deriving Repr, DecidableEq
+
+/-- the Fortran text of the expression, argument names and kinds as references -/
+inductive ITok where
+  | tru | fls | arg (n : Nat) | num (v : Nat)
+  | size (a : Nat) | len (a : Nat) | lenTrim (a : Nat)   -- `size(a,kind=<kind of the implied argument>)` ...
+  | shType (code : Nat)                                     -- `SH_TYPE_<..>` of the named argument
+  | op (o : Nat) | lp | rp
+  deriving Repr, DecidableEq
+
+def ITok.isSign : ITok → Bool
+  | .op 1 | .op 2 => true
+  | _ => false
+
+/-- `shTypeOf a`: the type code of argument `a` IN THE FUNCTION BEING WRAPPED (for a fortran_generic
+    clone: the clone's own declaration of `a`, not the C function's) -/
+def IExpr.render (shTypeOf : Nat → Nat) : IExpr → List ITok
+  | .tru => [.tru]
+  | .fls => [.fls]
+  | .ident n => [.arg n]
+  | .const v => [.num v]
+  | .size a => [.size a]
+  | .len a => [.len a]
+  | .lenTrim a => [.lenTrim a]
+  | .typ a => [.shType (shTypeOf a)]
+  | .bin o l r =>
+    let rr := r.render shTypeOf
+    l.render shTypeOf ++ [.op o] ++ (if (rr.head?.map ITok.isSign).getD false then [.lp] ++ rr ++ [.rp] else rr)
+  | .neg e =>
+    let rr := e.render shTypeOf
+    [.op 2] ++ (if (rr.head?.map ITok.isSign).getD false then [.lp] ++ rr ++ [.rp] else rr)
+  | .paren e => [.lp] ++ e.render shTypeOf ++ [.rp]
+
+/-- the value the library receives for the implied argument, given the caller's actuals -/
+def IExpr.eval (actual : Nat → Option Val) (shTypeOf : Nat → Nat) : IExpr → Option Val
+  | .tru => some (.bool true)
+  | .fls => some (.bool false)
+  | .ident n => actual n
+  | .const v => some (.int v)
+  | .size a => (actual a).bind fun v => (inquiry 1 v).map Val.int
+  | .len a => (actual a).bind fun v => (inquiry 2 v).map Val.int
+  | .lenTrim a => (actual a).bind fun v => (inquiry 3 v).map Val.int
+  | .typ a => some (.int (shTypeOf a))
+  | .bin o l r =>
+    match l.eval actual shTypeOf, r.eval actual shTypeOf with
+    | some (.int x), some (.int y) =>
+      if o = 1 then some (.int (x + y)) else if o = 2 then some (.int (x - y)) else if o = 3 then some (.int (x * y))
+      else if o = 4 ∧ y ≠ 0 then some (.int (Int.tdiv x y)) else none
+    | _, _ => none
+  | .neg e => match e.eval actual shTypeOf with
+    | some (.int x) => some (.int (-x))
+    | _ => none
+  | .paren e => e.eval actual shTypeOf
+
 /-! ### `generic_function`: which C function each fortran_generic clone calls -/
 
 /-- `get_order`: one code per parameter, 0 `-` (ignored), 1 `s` scalar, 2 `a` array.  A parameter is
